@@ -108,3 +108,22 @@ Proof. exact C14_value_type_insensitive_callables. Qed.
 Print Assumptions C14_commuted_same_behaviour. Print Assumptions C14_commuted_same_fields. Print Assumptions C14_same_definition_same_filter.
 Print Assumptions C14_same_definition_equal. Print Assumptions C14_same_definition_same_verdict.
 Print Assumptions C14_same_definition_same_selection. Print Assumptions C14_eq_callables_see_only_equality.
+
+(* ---- conditions whose arguments hold data paths NESTED in a list / tuple / mapping argument (NestedArgs.narg; equality NestedIO.condn_eqb:
+   a display without paths is the literal container, items in order, mapping entries by key).  == is an equivalence on well-formed
+   conditions, the two operands of a combination commute, and a list display is never == to the equal tuple display
+   (Proofs/C14NestedProof.v). *)
+From Valida Require Import NestedArgs NestedIO.
+From Valida.Proofs Require Import C14NestedProof.
+
+Theorem C14_nested_refl : forall c, condn_ok c -> condn_buildable c -> condn_eqb c c = true.
+Proof. exact C14N_cond_refl. Qed.
+Theorem C14_nested_sym : forall a b, condn_ok a -> condn_ok b -> condn_eqb a b = condn_eqb b a.
+Proof. exact C14N_cond_sym. Qed.
+Theorem C14_nested_trans : forall a b c, condn_ok a -> condn_ok b -> condn_ok c ->
+  condn_eqb a b = true -> condn_eqb b c = true -> condn_eqb a c = true.
+Proof. exact C14N_cond_trans. Qed.
+Theorem C14_nested_commute : forall o a b, condn_ok a -> condn_ok b -> condn_buildable a -> condn_buildable b ->
+  condn_eqb (CBin o a b) (CBin o b a) = true.
+Proof. exact C14N_cond_commute. Qed.
+Print Assumptions C14_nested_refl. Print Assumptions C14_nested_sym. Print Assumptions C14_nested_trans. Print Assumptions C14_nested_commute.
